@@ -102,6 +102,30 @@ type Parser struct {
 
 	// The filename of the input
 	filename string
+
+	// depth is the current nesting depth of statements and expressions
+	depth int
+}
+
+// maxDepth is the deepest nesting of statements and expressions the parser
+// accepts. The parser, the compiler and the AST printers are recursive, so
+// without a limit a long run of opening brackets exhausts the native stack,
+// which is a fatal error that no caller can recover from.
+const maxDepth = 10000
+
+// enter is called on entry to each recursive parsing step and reports whether
+// the nesting depth is still acceptable. Every call is paired with p.leave().
+func (p *Parser) enter() bool {
+	p.depth++
+	if p.depth > maxDepth {
+		p.setTokenError(p.curToken, "exceeded the maximum nesting depth of %d", maxDepth)
+		return false
+	}
+	return true
+}
+
+func (p *Parser) leave() {
+	p.depth--
 }
 
 // New returns a Parser for the program provided by the given Lexer.
@@ -321,6 +345,10 @@ func (p *Parser) parseStatementStrict() ast.Node {
 }
 
 func (p *Parser) parseStatement() ast.Node {
+	defer p.leave()
+	if !p.enter() {
+		return nil
+	}
 	var stmt ast.Node
 	switch p.curToken.Type {
 	case token.VAR:
@@ -488,6 +516,10 @@ func (p *Parser) parseNode(precedence int) ast.Node {
 	if p.curToken.Type == token.EOF || p.err != nil {
 		return nil
 	}
+	defer p.leave()
+	if !p.enter() {
+		return nil
+	}
 	postfix := p.postfixParseFns[p.curToken.Type]
 	if postfix != nil {
 		return postfix()
@@ -545,6 +577,11 @@ func (p *Parser) illegalToken() ast.Node {
 }
 
 func (p *Parser) setTokenError(t token.Token, msg string, args ...interface{}) ast.Node {
+	if p.err != nil {
+		// Only the first error is kept: skip building another one, which
+		// scans the source line and is costly while unwinding deep nesting
+		return nil
+	}
 	p.setError(NewParserError(ErrorOpts{
 		ErrType:       "parse error",
 		Message:       fmt.Sprintf(msg, args...),
